@@ -167,16 +167,17 @@ def r2_copy_completeness(R) -> None:
 
 
 # ---------------------------------------------------------------------------
-def _escapes(f: Fn, consts: Set[str]) -> List[Tuple[ast.AST, str, int]]:
+def _escapes(f: Fn, consts: Set[str], params: Tuple[str, ...] = (), depth: int = 0) -> List[Tuple[ast.AST, str, int]]:
     """(node, description, lineno) where a class-level mutable flows uncopied
-    into something that may keep it."""
+    into something that may keep it.  `params`: parameters of this function that hold such an object (it was handed
+    to this method by a caller): their uses are judged the same way, while they still hold what was passed."""
     fi = f.fi
     par: Dict[int, ast.AST] = {}
     for n in ast.walk(fi.node):
         for c in ast.iter_child_nodes(n):
             par[id(c)] = n
     recv = fi.node.args.args[0].arg if fi.node.args.args else None
-    if recv not in ('self', 'cls'):
+    if recv not in ('self', 'cls') and not params:
         return []
 
     def is_const_load(x: ast.AST) -> Optional[str]:
@@ -201,6 +202,24 @@ def _escapes(f: Fn, consts: Set[str]) -> List[Tuple[ast.AST, str, int]]:
                 return
             if isinstance(p.func, ast.Attribute) and p.func.attr in READONLY_METHODS:
                 return
+            # handed to another method of the same class: follow it there
+            if isinstance(p.func, ast.Attribute) and isinstance(p.func.value, ast.Name) and p.func.value.id in ('self', 'cls') and fi.cls is not None and depth < 2 \
+                    and x in p.args and not any(isinstance(a_, ast.Starred) for a_ in p.args):
+                cq = f'{fi.cls.qualname}.{p.func.attr}'
+                if f.repo.has_func(cq):
+                    ci = f.repo.functions[cq]
+                    is_static = any(text(d_) == 'staticmethod' for d_ in ci.node.decorator_list)
+                    pos = ci.node.args.args[(0 if is_static else 1):]
+                    k = p.args.index(x)
+                    if k < len(pos):
+                        inner = _escapes(Fn(f.R, cq), consts, params=(pos[k].arg,), depth=depth + 1)
+                        returned = [e_ for e_ in inner if 'is returned uncopied' in e_[1]]
+                        others = [e_ for e_ in inner if e_ not in returned]
+                        for (n_, why_, ln_) in others:
+                            out.append((p, f'`{what}` is passed to `{text(p.func)}(...)`, where {why_}', getattr(p, 'lineno', 0)))
+                        if returned and not others:
+                            judge_use(p, f'{what} (returned by `{p.func.attr}`)')
+                        return
             out.append((p, f'`{what}` is passed uncopied to `{text(p.func)}(...)`', getattr(p, 'lineno', 0)))
             return
         if isinstance(p, ast.keyword):
@@ -265,6 +284,16 @@ def _escapes(f: Fn, consts: Set[str]) -> List[Tuple[ast.AST, str, int]]:
         nm = is_const_load(x)
         if nm is not None:
             judge_use(x, f'{recv}.{nm}')
+    # parameters that hold a class-level object: every read made while the name still refers to what was passed
+    for pn in params:
+        for n in f.cfg.nodes:
+            if n.ast is None:
+                continue
+            from fsa.flow import node_expr_roots, _walk_no_scopes
+            for root in node_expr_roots(n):
+                for x in _walk_no_scopes(root):
+                    if isinstance(x, ast.Name) and x.id == pn and isinstance(x.ctx, ast.Load) and PARAM in f.lf.defs_reaching(n.id, pn):
+                        judge_use(x, f'the object passed as `{pn}`')
     return out
 
 
